@@ -225,6 +225,17 @@ def handle (t : Array String) : String :=
     match Beam.correction B 10000 (fb t[7]!) (fb t[8]!) with
     | none => "ValueError"
     | some (v, s) => "ok " ++ pb v ++ " " ++ toString s.iters ++ " " ++ pr [s.new, s.old, s.r_e, s.phi0] ++ (if s.exhausted then " exhausted" else "")
+  | "devgrid" =>
+    let g := Dev.grid (fb t[1]!) (fb t[2]!) t[3]!.toNat!
+    toString (Dev.argminSq g (fb t[1]!)) ++ " " ++ pr g
+  | "devget" =>
+    -- devget current e_kin r_e v_ax b_ax r_dt n_grid  hasVra [v] hasJ [j] hasFwhm [f] hasRbar [r]
+    let opt := fun (p : Nat) => if t[p]! == "1" then (some (fb t[p+1]!), p + 2) else ((none : Option Float), p + 1)
+    let (vra, p) := opt 8; let (j, p) := opt p; let (fw, p) := opt p; let (rb, _) := opt p
+    let d := Dev.get { current := fb t[1]!, e_kin := fb t[2]!, r_e := fb t[3]!, v_ax := fb t[4]!, b_ax := fb t[5]!, r_dt := fb t[6]!,
+                       n_grid := t[7]!.toNat!, v_ra := vra, j := j, fwhm := fw, r_dt_bar := rb }
+    toString d.reIdx ++ " " ++ toString d.grid.length ++ " " ++ pr [d.j, d.fwhm, d.v_ra, d.v_ax_sc, d.r_dt_bar] ++ " "
+      ++ pr d.grid ++ " " ++ pr d.phi ++ " " ++ pr d.phiAxBarr ++ " " ++ pr (untriple d.ldu)
   | "chunks" =>
     " ".intercalate ((Chunks.indices t[1]!.toNat! t[2]!.toNat!).map fun ab => toString ab.1 ++ " " ++ toString ab.2)
   | _ => "bad-op"
